@@ -17,21 +17,35 @@ class C18(Check):
             "independent framing walker; signature checked with crypto/* directly over SIG RDATA | Pack(m); real Verify of the "
             "result, of every single-bit flip (unpack, take the trailing SIG, verify), of every truncation >= 12 octets, with "
             "other keys, other signer names, windows around the clock; hand-made and random malformed buffers >= 12 octets "
-            "under Protect. Model cases: sign (key-field errors, unknown algorithm, compression on/off) and verify (valid, "
-            "bit flips steering the counts and offsets, truncations, malformed buffers, mismatched caller SIG). Non-trivial: "
+            "under Protect. Size limits from both sides for every key: signed size 65534/65535/65536 (four message shapes, "
+            "compressed and not, incl. uncompressed length above 65535), 511..49153, the 12-octet header alone, SIG RDLENGTH "
+            "255/256/257 and 255-octet signer names, 254/255/256 records in one and in three sections, the most records 65535 "
+            "octets hold; oracle: the signed size is known beforehand (Pack + SIG record + signature length of the key), "
+            "whatever fits must be signed and verify. Concurrency: 24 goroutines (four per key) sign, verify and verify an "
+            "altered copy of their own message 30..1200 times at once; each result against the same call made alone (equal "
+            "octets, equal signature for RSA/Ed25519, signer handed exactly the digest of RDATA | message, crypto/* check, "
+            "Verify ok, altered rejected) - no oracle depends on time or schedule. Model cases: sign (key-field errors, unknown algorithm, compression on/off) and verify (valid, "
+            "bit flips steering the counts and offsets, truncations, malformed buffers, mismatched caller SIG); messages above 3000 octets as run-length recipes both sides expand (signbig/verifybig, "
+            "long octet strings compared by length.sum.sum-of-prefix-sums); the last result of each goroutine. Non-trivial: "
             "input longer than a header; distinct by hash of (function, arguments, output).")
     partial = ["signing and signature checking are Section variables: that a signature by the private key verifies under the "
                "public key (sig_sound) and that a signature fits one digest input only (sig_binding) are named hypotheses",
                "the uncompressed length and m.Pack() are inputs of the sign model; |Pack| <= uncompressed length + 1 is property C08",
                "the clock cannot be injected into SIG.Verify: window cases are judged only when the clock did not tick during "
                "the call",
-               "messages above 3000 octets are checked by the direct oracles only (no 64 KiB literals in model cases)"]
+               "messages above 3000 octets reach the model only when their octets have a run-length recipe of at most 16000 "
+               "characters (the generated size-limit messages do; random large ones are checked by the direct oracles only), and "
+               "the verify model is run on them only up to 40 records (it costs ~5 ms per record in a 64 KiB message)",
+               "concurrency is not part of the Gallina model (a pure function has no shared state): the concurrent results are "
+               "tied to it by comparing each with the sequential call and emitting the last one of each goroutine as a model case; "
+               "whether two calls overlap is up to the scheduler - the round counts make a shared-buffer change fail within the "
+               "first tenth of the rounds on 1..16 CPUs"]
     trusted = ["label-list view of names; labels.go equal = equality of lower-cased labels on the strings UnpackDomainName produces"]
     shard_size = 170
 
     def nontrivial(self, c):
         a = c["args"]
-        return len(a[2] if c["fn"] == "sign" else a[7]) > 24
+        return len(a[1] if c["fn"].startswith("sign") else a[7]) > 24
 
 
 CHECK = C18()
